@@ -21,6 +21,12 @@ constexpr int FFT_CACHE_SIZE = DSPLIB_FFT_CACHE_SIZE;
 
 static_assert(FFT_CACHE_SIZE > 0);
 
+#ifdef DSPLIB_VERIF
+//verification hook: a reserved (invalid) length asks a factory for the keys of the calling thread's cache
+constexpr int VERIF_KEYS_QUERY = -0x5eed;
+thread_local std::vector<int> g_verif_keys;
+#endif
+
 std::shared_ptr<BaseFftPlanC> _get_fft_plan(int n) {
     if (isprime(n)) {
         return std::make_shared<PrimesFftC>(n);
@@ -52,6 +58,13 @@ std::shared_ptr<BaseFftPlanC> create_fft_plan(int n) {
 
     //TODO: use weak_ptr cache to prevent duplication
     thread_local LRUCache<int, std::shared_ptr<BaseFftPlanC>> cache{FFT_CACHE_SIZE};
+#ifdef DSPLIB_VERIF
+    if (n == VERIF_KEYS_QUERY) {
+        g_verif_keys.clear();
+        cache.keys(g_verif_keys);
+        return nullptr;
+    }
+#endif
     if (!cache.exists(n)) {
         auto plan = _get_fft_plan(n);
         cache.put(n, plan);
@@ -66,6 +79,13 @@ std::shared_ptr<BaseFftPlanR> create_rfft_plan(int n) {
     }
 
     thread_local LRUCache<int, std::shared_ptr<BaseFftPlanR>> cache{FFT_CACHE_SIZE};
+#ifdef DSPLIB_VERIF
+    if (n == VERIF_KEYS_QUERY) {
+        g_verif_keys.clear();
+        cache.keys(g_verif_keys);
+        return nullptr;
+    }
+#endif
     if (!cache.exists(n)) {
         auto plan = _get_rfft_plan(n);
         cache.put(n, plan);
@@ -73,6 +93,23 @@ std::shared_ptr<BaseFftPlanR> create_rfft_plan(int n) {
     }
     return cache.get(n);
 }
+
+#ifdef DSPLIB_VERIF
+//verification hooks: lengths held by the calling thread's plan caches, most recently used first
+std::vector<int> verif_fft_cache_keys() {
+    create_fft_plan(VERIF_KEYS_QUERY);
+    return g_verif_keys;
+}
+
+std::vector<int> verif_rfft_cache_keys() {
+    create_rfft_plan(VERIF_KEYS_QUERY);
+    return g_verif_keys;
+}
+
+int verif_fft_cache_capacity() {
+    return FFT_CACHE_SIZE;
+}
+#endif
 
 //-------------------------------------------------------------------------------------------------
 FftPlan::FftPlan(int n)
